@@ -1,10 +1,12 @@
 /-
 Model of `NewHTTPTargeter` (lib/targets.go:262-380): the `peekingScanner` with its one-line
 lookahead (`peeked == ""` conflation included), `bufio.ScanLines`, the skip rules, the request
-line, the peek rule, the header loop, `@file` bodies and the default merge **by sharing** the
-default header slices.  Slices are `(array id, len, cap)` over an explicit heap, `append` writes
-in place when `len < cap` and reallocates otherwise, so that "a later target rewrites an earlier
-one" is expressible (and happens, as in the code).
+line, the peek rule with its comment-skipping loop (fix c9e79da), the header loop, `@file` bodies
+and the default merge, which **copies** the default header slices (fix 84aa239).  Slices are
+`(array id, len, cap)` over an explicit heap, `append` writes in place when `len < cap` and
+reallocates otherwise, so that "a later target rewrites an earlier one" is expressible — and is
+proved impossible (Props/C14 `earlier_targets_stable`).  The behaviour before the two fixes is
+kept as `Props/C14` `*_old_counterexample`.
 
 Parameters (external calls): `validURI` (`url.ParseRequestURI`), `fs` (`os.ReadFile`).
 Left out: the 64 KiB token limit of `bufio.Scanner`, I/O errors of the reader (`sc.Err()` is
@@ -212,21 +214,41 @@ def headerLoop (cfg : Cfg) : Nat → PS → Target → Heap → Option Nat × PS
       | .stop e tgt' h' => (e, ps2, tgt', h')
       | .next tgt' h' => headerLoop cfg fuel ps2 tgt' h'
 
+/-- `for k, vs := range hdr { tgt.Header[k] = append([]string(nil), vs...) }`: every default
+value list is copied into a fresh array (a nil slice when it is empty); the capacity Go picks
+for the copy is not observable, the copy is referenced by this one map entry only. -/
+def copyDefaults : HMap → Heap → HMap × Heap
+  | [], h => ([], h)
+  | (k, s) :: r, h =>
+    let vs := view h s
+    if vs = [] then
+      ((k, nilSlice) :: (copyDefaults r h).1, (copyDefaults r h).2)
+    else
+      ((k, { arr := h.length, len := vs.length, cap := vs.length }) :: (copyDefaults r (h ++ [vs])).1,
+       (copyDefaults r (h ++ [vs])).2)
+
 /-- the request line: `SplitN(line, " ", 2)`, the method check, the URL check; the target
-starts with the default body and the default header map (slices shared) -/
-def requestLine (cfg : Cfg) (line : Bytes) : Except Nat Target :=
-  -- tgt.Body = body; tgt.Header = http.Header{}; for k, vs := range hdr { tgt.Header[k] = vs }
+starts with the default body and the (copied) default header map -/
+def requestLine (cfg : Cfg) (line : Bytes) (hdr : HMap) : Except Nat Target :=
   match splitFirst 32 line with
   | none => .error eBadTarget
   | some (m, u) =>
     if !startsWithHTTPMethod line then .error eBadMethod
     else if !cfg.validURI u then .error eBadURL
-    else .ok { method := m, url := u, body := cfg.body, header := cfg.hdr }
+    else .ok { method := m, url := u, body := cfg.body, header := hdr }
 
-/-- `line = TrimSpace(sc.Peek()); if line == "" || startsWithHTTPMethod(line) { return nil }` -/
-def returnsAfterPeek (p : Bytes) : Bool :=
-  let pl := trimSpace p
-  pl = [] || startsWithHTTPMethod pl
+/-- `line = TrimSpace(sc.Peek()); for HasPrefix(line, "#") { line = TrimSpace(sc.Peek()) }`:
+every further `Peek` overwrites `peeked`, which drops the comment; at the end of the input
+`Peek` returns "" and leaves the last comment in `peeked`. Returns the trimmed line. -/
+def peekLoop : Nat → PS → Bytes × PS
+  | 0, ps => ([], ps)
+  | fuel + 1, ps =>
+    let (p, ps1) := ps.peek
+    let line := trimSpace p
+    if line.head? = some 35 then peekLoop fuel ps1 else (line, ps1)
+
+/-- `if line == "" || startsWithHTTPMethod(line) { return nil }` -/
+def returnsAfterPeek (line : Bytes) : Bool := line = [] || startsWithHTTPMethod line
 
 /-- One call of the targeter closure with a fresh `Target`. -/
 def call (cfg : Cfg) (st : St) : Outcome Target × St :=
@@ -234,13 +256,15 @@ def call (cfg : Cfg) (st : St) : Outcome Target × St :=
   match skipLoop fuel st.ps with
   | (none, ps1) => (.error eNoTargets, { st with ps := ps1 })
   | (some line, ps1) =>
-    match requestLine cfg line with
-    | .error e => (.error e, { st with ps := ps1 })
+    -- tgt.Body = body; tgt.Header = http.Header{}; the defaults are copied
+    let (m0, h0) := copyDefaults cfg.hdr st.heap
+    match requestLine cfg line m0 with
+    | .error e => (.error e, { ps := ps1, heap := h0 })
     | .ok tgt =>
-      let (p, ps2) := ps1.peek
-      if returnsAfterPeek p then (.ok tgt, { st with ps := ps2 })
+      let (line2, ps2) := peekLoop fuel ps1
+      if returnsAfterPeek line2 then (.ok tgt, { ps := ps2, heap := h0 })
       else
-        match headerLoop cfg fuel ps2 tgt st.heap with
+        match headerLoop cfg fuel ps2 tgt h0 with
         | (some e, ps3, _, h3) => (.error e, { ps := ps3, heap := h3 })
         | (none, ps3, tgt3, h3) => (.ok tgt3, { ps := ps3, heap := h3 })
 
